@@ -266,6 +266,7 @@ def run(ctx, sf):
     sf.hbar = 2
     check_top_level(ctx, sf, ctx.rng)
     simcorr.run_loss_corr(ctx)
+    simcorr.run_cat_corr(ctx, ctx.n(40, 400))
     simcorr.run_fock_corr(ctx, ctx.n(110, 1100))
     simcorr.run_gauss_corr(ctx, ctx.n(120, 1200))
     rng = ctx.rng
